@@ -749,3 +749,47 @@ pub fn simultaneous_children(root: &GameState, n: usize) -> (usize, usize) {
     }
     (bad, got.len())
 }
+
+
+/// Slot round: every thread owns ONE state variable into which the given states (look-alikes: same position,
+/// different pasts) are moved in turn and queried there - the same storage address holds different states.
+/// Expected fingerprints are computed beforehand on the originals. Returns (mismatches, queries).
+pub fn slot_round(states: &[GameState], threads: usize, iters: u32) -> (usize, usize) {
+    let expected: Vec<u64> = states.iter().map(|s| fingerprint(s, false)).collect();
+    let states = Arc::new(states.to_vec());
+    let expected = Arc::new(expected);
+    let hs: Vec<_> = (0..threads)
+        .map(|t| {
+            let states = Arc::clone(&states);
+            let expected = Arc::clone(&expected);
+            std::thread::spawn(move || {
+                let mut slot: GameState = states[t % states.len()].clone();
+                let mut bad = 0usize;
+                let mut n = 0usize;
+                for it in 0..iters as usize {
+                    for k in 0..states.len() {
+                        let i = (k + t + it) % states.len();
+                        if it % 2 == 0 {
+                            slot = states[i].clone();
+                        } else {
+                            slot.clone_from(&states[i]);
+                        }
+                        if fingerprint(&slot, false) != expected[i] {
+                            bad += 1;
+                        }
+                        n += 1;
+                    }
+                }
+                (bad, n)
+            })
+        })
+        .collect();
+    let mut bad = 0;
+    let mut n = 0;
+    for h in hs {
+        let (b, k) = h.join().unwrap();
+        bad += b;
+        n += k;
+    }
+    (bad, n)
+}
